@@ -95,8 +95,8 @@ func reachable(t reflect.Type, structs, slices map[reflect.Type]bool, seen map[r
 }
 
 func rootIface(t reflect.Type) bool {
-	for t.Kind() == reflect.Slice || t.Kind() == reflect.Array || t.Kind() == reflect.Ptr {
-		t = t.Elem()
+	for n := 0; n < 64 && (t.Kind() == reflect.Slice || t.Kind() == reflect.Array || t.Kind() == reflect.Ptr); n++ {
+		t = t.Elem() // bounded: a self-referential list type (type T []T) has no root element
 	}
 	return t.Kind() == reflect.Interface
 }
@@ -376,7 +376,7 @@ func (c16) Run(c Case, env *Env) Result {
 // sameListName: []T and []*T are registered under one list name; either is accepted.
 func sameListName(a, b reflect.Type) bool {
 	strip := func(t reflect.Type) reflect.Type {
-		for t.Kind() == reflect.Slice || t.Kind() == reflect.Ptr {
+		for n := 0; n < 64 && (t.Kind() == reflect.Slice || t.Kind() == reflect.Ptr); n++ {
 			t = t.Elem()
 		}
 		return t
